@@ -1,12 +1,19 @@
 #!/bin/bash
 # mut.sh <patch-file> <ID> [<ID>...] : run checks against a scratch copy of /repo with the patch applied.
-# Leaves /repo untouched. Scratch copy and build output are removed afterwards.
+# Leaves /repo untouched. The scratch copy lives in one of a few FIXED slot directories (so that the Go build
+# cache is shared between runs: cache keys contain the source path) and is removed afterwards.
 set -u
 PATCH=$(realpath "$1"); shift
-D=/dev/shm/repo-mut-$$
+SLOT=""
+for n in 1 2 3 4 5 6 7 8; do
+  exec 9>/dev/shm/repo-mut-slot$n.lock
+  if flock -n 9; then SLOT=$n; break; fi
+done
+if [ -z "$SLOT" ]; then exec 9>/dev/shm/repo-mut-slot1.lock; flock 9; SLOT=1; fi
+D=/dev/shm/repo-mut-slot$SLOT
+rm -rf $D
 rsync -a --exclude .git /repo/ $D/
 ( cd $D && patch -p1 -s < "$PATCH" ) || { echo "patch failed"; rm -rf $D; exit 2; }
-rc=0
 for id in "$@"; do
   VERIF_REPO=$D VERIF_REPLAY_DIR_SUFFIX=mut /verif/check $id --tier ${TIER:-quick} 2>&1 | grep -E "^(VIOLATION|KNOWN|  code=|HARNESS|C[0-9]+ tier)" | cut -c1-260 | head -${LINES_MAX:-8}
 done
